@@ -75,6 +75,13 @@ func Run(a ConstMatrix, args ...interface{}) (Matrix, Matrix, error) {
     if n1, m1 := inSitu.L.Dims(); n1 != n || m1 != n {
       panic("Cholesky(): InSitu.L has invalid dimension!")
     }
+    // a recycled matrix keeps the entries of its previous use, only the
+    // lower triangle is written below
+    for i := 0; i < n; i++ {
+      for j := i+1; j < n; j++ {
+        inSitu.L.At(i, j).SetFloat64(0.0)
+      }
+    }
   }
   if ldl {
     if inSitu.D == nil {
